@@ -111,7 +111,10 @@ def order_part(out_dir):
 def globals_part(out_dir):
     known = fc.load_known(PID)
     cuts = [c for k in known for c in k.get("cuts", [])]
-    res = fc.run_roots([{"name": r, "kind": "compile", "cuts": cuts} for r in ("compileTTF", "compileOTF")])
+    # every public compile function (the same roots as the C07 frame proof)
+    from vcheck.hooks.c07 import PROVED_ROOTS
+
+    res = fc.run_roots([{"name": r, "kind": "compile", "cuts": cuts} for r in PROVED_ROOTS])
     violations = []
     n = 0
     bad = 0
